@@ -9,7 +9,7 @@ from vk import refmodel as rm, strategies as S
 from vk.build import build, pack_bp, unpack_bp
 
 ID = 'C02'
-RULE = ('Hypothesis-generated netlists (as C01) x m in {4,8} x stimuli over {0,1,X,-} (m=4) / all eight values (m=8), biased to '
+RULE = ('Part wide: a fixed small sequential netlist with 8193 .. 70001 patterns in one batch (4- and 8-valued). Part simmv: Hypothesis-generated netlists (as C01) x m in {4,8} x stimuli over {0,1,X,-} (m=4) / all eight values (m=8), biased to '
         'few unknowns x batch sizes x {c_reuse} x {strip_forks}. Oracles: (1) gate-by-gate composition in an independent abstract '
         'algebra (X and - compared as one class), (2) X-soundness: every plain 0/1 result equals the 2-valued evaluation under every '
         '0/1 completion of the unknown inputs (all 2^u for u<=8, else 64 generated), applied to initial and final components, '
@@ -135,4 +135,22 @@ def prop(case):
     return Obs(interesting and any_known, labels, checks=nchecks)
 
 
-PARTS = [Part('simmv', prop, strategy=cases, quick=(8, 700), thorough=(16, 12000))]
+def enum_wide(tier):
+    """batches far beyond the generated 1..24 patterns (implementations that work on the pattern axis in blocks)"""
+    from vk.props.c01 import WIDE_NL
+    sizes = [(8193, 4), (8200, 8), (20011, 8)] if tier == 'quick' else [(8192, 4), (8193, 4), (8193, 8), (16385, 4), (32769, 8), (70001, 4)]
+    for j, (sims, m) in enumerate(sizes):
+        x = 0x2545f4914f6cdd1d + j
+        alpha = [0, 3, 0, 3, 1, 2] if m == 4 else [0, 3, 5, 6, 4, 7, 0, 3, 1]
+        rows = []
+        for _ in range(4):
+            row = []
+            for _ in range(sims):
+                x = (x * 6364136223846793005 + 1442695040888963407) % (1 << 64)
+                row.append(alpha[(x >> 33) % len(alpha)])
+            rows.append(row)
+        yield dict(nl=WIDE_NL, m=m, sims=sims, stim=rows, fill=0, c_reuse=bool(j & 1), strip_forks=bool(j & 2), comp=[j * 7919 + k for k in range(16)])
+
+
+PARTS = [Part('simmv', prop, strategy=cases, quick=(8, 700), thorough=(16, 12000)),
+         Part('wide', prop, enumerate=enum_wide, quick=(3, 0), thorough=(6, 0))]
